@@ -540,7 +540,16 @@ class History(object):
         if i is None:
             return None
         s = self.nodes[self.ms[i]]
-        ty %= 5
+        ty %= 7
+        if ty >= 5:
+            # a call that is refused (fixed-size array type larger than the source): no view comes into
+            # being, so the source must be neither locked nor kept alive by it
+            try:
+                f = self.ffi.from_buffer(('char[4096]', 'long[1000]')[ty - 5], self.slots[i])
+            except ValueError:
+                return 'from_buffer-refused'
+            self.ctx.fail('from_buffer() of a fixed-size array type larger than the source was accepted: %r' % (f,),
+                          step=self.step)
         if ty == 0:
             f = self.ffi.from_buffer(self.slots[i])
         elif ty == 1:
